@@ -18,6 +18,11 @@ func (x *Exec) execInstr(fr *Frame, instr ssa.Instruction) {
 			fr.env[in] = &PtrV{T: in.Type(), Kind: PArr, Base: arr, Root: et}
 			break
 		}
+		if !in.Heap {
+			// a local whose address does not escape: private heap family, invisible to contracts and frames
+			fr.env[in] = x.allocObjIn(et, in.Type(), true, "local:"+typeKey(et))
+			break
+		}
 		fr.env[in] = x.allocObj(et, in.Type(), true)
 	case *ssa.FieldAddr:
 		p := x.ptrOf(x.get(fr, in.X))
